@@ -75,7 +75,8 @@ def run_case(case):
         raise InvalidCase("no models")
     models = [make_model(k) for k in kinds]
     nm = len(models)
-    agents = [[Agent(f"m{mi}a{ai}", models[mi]) for ai in range(5)] for mi in range(nm)]
+    PER = max(1, min(int(case.get("per_model", 5)), 160))       # agents per model (large cases cross size thresholds)
+    agents = [[Agent(f"m{mi}a{ai}", models[mi]) for ai in range(PER)] for mi in range(nm)]
     where_is = {}        # agent obj id -> model index it is resident in
     joined_seq = {}      # agent obj id -> sequence number of its current join
     via_join = set()     # id(component) registered by a join (order is then prescribed)
@@ -147,8 +148,8 @@ def run_case(case):
             labels.add("two-models-same-type")
 
     prologue = []
-    for idx, spec in enumerate(case.get("init", [])[:nm * 5]):      # initial population: components attached, then joined
-        mi0, ai0 = idx // 5, idx % 5
+    for idx, spec in enumerate(case.get("init", [])[:nm * PER]):      # initial population: components attached, then joined
+        mi0, ai0 = idx // PER, idx % PER
         if mi0 >= nm:
             break
         for ti in range(len(TYPES)):
@@ -159,7 +160,7 @@ def run_case(case):
     for k, op in enumerate(prologue + list(case["ops"])):
         kind = op["op"]
         mi = int(op.get("m", 0)) % nm
-        a = agents[mi][int(op.get("a", 0)) % 5]
+        a = agents[mi][int(op.get("a", 0)) % PER]
         flat = [x for row in agents for x in row]
         if "k" in op:      # relative addressing: k-th agent / component in the state the op is meant for
             if kind == "detach":
@@ -277,6 +278,8 @@ def run_case(case):
         if verify_on:
             verify(where)
     verify("at the end")
+    if PER > 64:
+        labels.add("population>64")
     return {"nontrivial": nontrivial, "labels": sorted(labels) + [f"env-{k}" for k in sorted(set(kinds))], "excluded": excluded}
 
 
@@ -298,6 +301,21 @@ def strategy(tier):
         st.fixed_dictionaries({"op": st.just("leave"), "k": k}),
     )
     init = st.fixed_dictionaries({"comps": st.sampled_from([0, 0, 1, 1, 1, 2, 3, 4, 5, 7, 8, 9, 12, 15, 16, 17, 24, 31]), "joined": st.booleans(), "pos": pos})
+    from vf.fixtures import near_pow2
+    big_init = st.fixed_dictionaries({"comps": st.sampled_from([1, 1, 1, 3, 5, 9, 17]), "joined": st.sampled_from([True, True, True, False]),
+                                      "pos": pos})
+    big_ops = wone_of(st.fixed_dictionaries({"op": st.just("leave"), "k": st.integers(0, 200)}),
+                      st.fixed_dictionaries({"op": st.just("leave"), "k": st.integers(0, 200)}),
+                      st.fixed_dictionaries({"op": st.just("join"), "k": st.integers(0, 200), "pos": pos, "foreign": st.just(0)}),
+                      st.fixed_dictionaries({"op": st.just("detach"), "k": st.integers(0, 400), "paired": st.just(True)}))
+    large = near_pow2(33, 130).flatmap(lambda n: st.fixed_dictionaries({
+        "models": st.lists(st.integers(0, 4), min_size=2, max_size=2), "per_model": st.just(n),
+        "init": st.lists(big_init, min_size=2 * n, max_size=2 * n), "ops": sized_lists(big_ops, 2, 10)}))
+    small = _small(m, a, t, paired, k, pos, foreign, attach, join_abs, join_rel, ops, init)
+    return wone_of(*([small] * 14 + [large]))
+
+
+def _small(m, a, t, paired, k, pos, foreign, attach, join_abs, join_rel, ops, init):
     return st.fixed_dictionaries({"models": st.lists(st.integers(0, 4), min_size=2, max_size=3),
                                   "init": wone_of(st.just([]), st.lists(init, min_size=15, max_size=15)),
                                   "ops": wone_of(st.lists(ops, min_size=1, max_size=12), sized_lists(ops, 8, 45), sized_lists(ops, 8, 45))})
